@@ -438,11 +438,13 @@ SameOrder ==
   (NoDup(acc) /\ ncrash = 0 /\ nclose = 0) => \A i, j \in DOMAIN acc : \A k, l \in DOMAIN want :
                   (i < j /\ want[k] = acc[i] /\ want[l] = acc[j]) => k < l
 
-(* no lost wake-up: when every live listener sleeps on Wait(), no token is pending and no pusher
-   is between its append and its signal, the pool is empty *)
+(* no lost wake-up: while the pool is open, when every live listener sleeps on Wait(), no token is
+   pending and no pusher is between its append and its signal, the pool is empty.  (A Push racing
+   with Close panics in its channel send; in the repaired order that is after the append — the
+   listener of a closing pool is not woken for it.) *)
 Live == {c \in Consumers : cs[c] \in {"drain", "wait"}}
 NoLostWakeup ==
-  (Up /\ Live # {} /\ (\A c \in Live : cs[c] = "wait") /\ token = 0 /\ (\A p \in Pushers : ~pu[p].pushed))
+  (st = "open" /\ Live # {} /\ (\A c \in Live : cs[c] = "wait") /\ token = 0 /\ (\A p \in Pushers : ~pu[p].pushed))
      => mem = <<>>
 
 (* the executor sees every popped transaction exactly once, in order (batches of <= Batch) *)
